@@ -1,4 +1,132 @@
-From YV Require Import Common.Tac C16.C16Model C16.C16Proofs.
-Theorem C16_placeholder : exec (mkCfg true false true false false) init [] = Some (init, []).
-Proof. exact placeholder_thm. Qed.
-Print Assumptions C16_placeholder.
+(* C16 — Connection lifecycle.  Statements only; proofs are in C16/C16Proofs.v, C16/C16Thms.v.
+   `exec c init h = Some (s, tr)`: the history h lies in the property's alphabet (C16Model.enabled),
+   s is the state it leads to and tr everything the probes P0..P3, the dispatcher, the noise
+   handshake and the application observed.  No bound on the length of h.  c ranges over all options
+   (reconnect, passive, ping) and over the code with / without the two network-layer guards.        *)
+From YV Require Import Common.Tac C16.C16Model C16.C16Proofs C16.C16Thms.
+
+(* one CONNECTED at every position, one auth event and one handshake per dispatcher-connected;
+   no dispatcher is ever replaced while live *)
+Theorem C16_connect_once : forall c h s tr, exec c init h = Some (s, tr) ->
+  orphans s = 0%N /\
+  (forall p, In p [0; 1; 2; 3]%N -> countb (is_up_at p) tr = count_ev ev_disp_connected h) /\
+  (forall p, In p [0; 1; 2]%N -> countb (is_auth_at p) tr = count_ev ev_disp_connected h) /\
+  countb is_handshake tr = count_ev ev_disp_connected h.
+Proof. exact connect_once_thm. Qed.
+Print Assumptions C16_connect_once.
+
+Theorem C16_authed_once : forall c h s tr, exec c init h = Some (s, tr) ->
+  (forall p, In p [0; 1; 2]%N -> countb (is_authed_at p) tr = count_ev ev_success h) /\
+  countb is_app_success tr = count_ev ev_success h.
+Proof. exact authed_once_thm. Qed.
+Print Assumptions C16_authed_once.
+
+Theorem C16_failure_closes : forall c h s tr, exec c init h = Some (s, tr) ->
+  enabled c s EFailure = true ->
+  In (OApp AFailure) (snd (step c s EFailure)) /\
+  In ODispDisconnect (snd (step c s EFailure)) /\
+  In (OProbe 0 (PDisconnected RAuthFail)) (snd (step c s EFailure)) /\
+  ns (fst (step c s EFailure)) = NsDisconnected /\ conn (fst (step c s EFailure)) = false /\
+  dp (fst (step c s EFailure)) = DpClosed.
+Proof. exact failure_closes_thm. Qed.
+Print Assumptions C16_failure_closes.
+
+Theorem C16_stream_error_delivered_and_closes : forall c h s tr k, exec c init h = Some (s, tr) ->
+  enabled c s (EStreamError k) = true ->
+  In (OApp (AStreamError k)) (snd (step c s (EStreamError k))) /\
+  In ODispDisconnect (snd (step c s (EStreamError k))) /\
+  In (OProbe 0 (PDisconnected RNone)) (snd (step c s (EStreamError k))) /\
+  ns (fst (step c s (EStreamError k))) = NsDisconnected /\
+  conn (fst (step c s (EStreamError k))) = false /\
+  dp (fst (step c s (EStreamError k))) = DpClosed /\
+  recon (fst (step c s (EStreamError k))) = (c_reconnect c && negb (is_conflict k)).
+Proof. exact stream_error_closes_thm. Qed.
+Print Assumptions C16_stream_error_delivered_and_closes.
+
+(* directly above the network layer: a dispatcher is created only when idle, announced up at most
+   once, and whatever was attempted or up is announced down exactly once (mon_run); every other
+   position sees the same announcements in the same order, the missing ones being exactly the
+   queued ones *)
+Theorem C16_down_once : forall c h s tr, exec c init h = Some (s, tr) ->
+  mon_run MIdle tr = Some (mon_of (ns s)) /\
+  (forall p, In p [1; 2; 3]%N -> proj 0 tr = proj p tr ++ map ADown (dq s)).
+Proof. exact down_once_thm. Qed.
+Print Assumptions C16_down_once.
+
+Theorem C16_no_write_when_down : forall c h s tr, exec c init h = Some (s, tr) ->
+  countb is_down_write tr = 0%nat /\ countb is_raise tr = 0%nat.
+Proof. exact no_write_when_down_thm. Qed.
+Print Assumptions C16_no_write_when_down.
+
+Theorem C16_fresh_login : forall c h s tr, exec c init h = Some (s, tr) ->
+  (ns s = NsConnecting -> nz s = NzInit) /\
+  (ns s = NsDisconnected -> dq s = [] -> nz s = NzInit) /\
+  (enabled c s EDispConnected = true ->
+     In (OHandshake (c_passive c)) (snd (step c s EDispConnected)) /\
+     In (OWrite WHeader true) (snd (step c s EDispConnected)) /\
+     nz (fst (step c s EDispConnected)) = NzHandshake).
+Proof. exact fresh_login_thm. Qed.
+Print Assumptions C16_fresh_login.
+
+Theorem C16_auto_reconnect : forall c h s tr k, exec c init h = Some (s, tr) ->
+  stanza_ok s = true ->
+  exists s2 tr2, exec c s [EStreamError k; ELoop] = Some (s2, tr2) /\
+    existsb is_create tr2 = (c_reconnect c && negb (is_conflict k)) /\
+    ns s2 = (if c_reconnect c && negb (is_conflict k) then NsConnecting else NsDisconnected).
+Proof. exact auto_reconnect_thm. Qed.
+Print Assumptions C16_auto_reconnect.
+
+(* a connection is opened only on request or by the loop delivering DISCONNECTED with the reconnect
+   flag set, and the flag is set only by a non-conflict stream error with the option on *)
+Theorem C16_auto_reconnect_only : forall c h s tr e, exec c init h = Some (s, tr) ->
+  enabled c s e = true ->
+  (existsb is_create (snd (step c s e)) = true ->
+     e = EConnectReq \/ e = EConnectCall \/ (e = ELoop /\ recon s = true)) /\
+  (recon (fst (step c s e)) = true ->
+     recon s = true \/ (c_reconnect c = true /\ exists k, e = EStreamError k /\ k <> KConflict)).
+Proof. exact auto_reconnect_only_thm. Qed.
+Print Assumptions C16_auto_reconnect_only.
+
+Theorem C16_keepalive : forall c h s tr, exec c init h = Some (s, tr) ->
+  (pq s = [] \/ exists x, pq s = [x] /\ (x + 1)%N = nping s /\ pth s = true /\ memN x (reg s) = true) /\
+  (enabled c s ETick = true ->
+     existsb is_ping_timeout (snd (step c s ETick)) = (pth s && nonempty (pq s))) /\
+  (forall i, enabled c s (EPong i) = true -> pq s = [i] -> pq (fst (step c s (EPong i))) = []) /\
+  (forall e, enabled c s e = true -> ev_tick e = false ->
+     pq (fst (step c s e)) = pq s \/ pq (fst (step c s e)) = []).
+Proof. exact keepalive_thm. Qed.
+Print Assumptions C16_keepalive.
+
+(* never while every ping is answered in time: if the pong of the ping issued at a tick is delivered
+   before the next tick, that next tick does not ask for a disconnect *)
+Theorem C16_keepalive_answered_never : forall c h s tr mid s1 tr1,
+  exec c init h = Some (s, tr) ->
+  exec c s (ETick :: mid) = Some (s1, tr1) ->
+  count_ev ev_tick mid = 0%nat ->
+  In (EPong (nping s)) mid ->
+  enabled c s1 ETick = true ->
+  existsb is_ping_timeout (snd (step c s1 ETick)) = false.
+Proof. exact keepalive_answered_never_thm. Qed.
+Print Assumptions C16_keepalive_answered_never.
+
+(* witnesses against the unguarded code and against connecting before the deferred DISCONNECTED ran *)
+Theorem C16_double_connect_refuted :
+  let '(s, tr) := exec_any cfg_asis init [EConnectReq; EConnectReq] in
+  orphans s = 1%N /\ mon_run MIdle tr = None.
+Proof. exact double_connect_refuted. Qed.
+Print Assumptions C16_double_connect_refuted.
+
+Theorem C16_down_disconnect_refuted :
+  let '(s, tr) := exec_any cfg_asis init
+                    [EConnectReq; EDispConnected; ESuccess; ETick; EPeerClose; ETick] in
+  mon_run MIdle tr = None /\ proj 0 tr = [AUp; ADown RNone; ADown RPing].
+Proof. exact down_disconnect_refuted. Qed.
+Print Assumptions C16_down_disconnect_refuted.
+
+Theorem C16_early_connect_refuted :
+  let '(s, tr) := exec_any cfg_fixed init
+                    [EConnectReq; EDispConnected; EPeerClose; EConnectReq; EDispConnected; ELoop] in
+  ns s = NsConnected /\ nz s = NzInit /\ proj 3 tr = [AUp; AUp; ADown RNone] /\
+  exec cfg_fixed init [EConnectReq; EDispConnected; EPeerClose; EConnectReq] = None.
+Proof. exact early_connect_refuted. Qed.
+Print Assumptions C16_early_connect_refuted.
